@@ -234,13 +234,14 @@ Lemma float_arr_rt : forall q fixed cap w l,
   assignG q fixed cap (EPrim (KF w)) (PList l) = Ok (PArr (DF (pwd PW w)) l).
 Proof.
   intros q fixed cap w l Ho Hf Hl. cbn [assignG]. unfold slowG. rewrite int_src_ok_other by exact I.
-  unfold np_array, float_src_ok.
+  unfold float_src_ok.
   rewrite forallb_forall in Ho, Hf.
   assert (Hfl : forall x, In x l -> exists b, x = PFloat b).
   { intros x Hx. specialize (Ho x Hx). destruct x; cbn [elem_ok] in Ho; try discriminate. eauto. }
-  destruct (np_flat_atoms l) as [sh E].
+  assert (Hat : forallb np_atom l = true).
   { apply forallb_forall. intros x Hx. destruct (Hfl x Hx) as [b ->]. reflexivity. }
-  rewrite E. cbn [bind snd dtype_of].
+  destruct (np_flat_atoms l Hat) as [sh E].
+  rewrite E, (np_array_pylist _ l Hat). cbn [bind snd dtype_of].
   rewrite mapM_id.
   2:{ intros x Hx. destruct (Hfl x Hx) as [b ->]. specialize (Hf _ Hx). cbn [felem_ok] in Hf.
       apply andb_true_iff in Hf. destruct Hf as [Hr _]. apply N.eqb_eq in Hr.
@@ -260,10 +261,10 @@ Qed.
 Lemma comp_arr_rt : forall q fixed cap t l, forallb (is_inst t) l = true -> lenG fixed (length l) cap = true ->
   assignG q fixed cap (EComp t) (PList l) = Ok (PArr DObj l).
 Proof.
-  intros q fixed cap t l Hi Hl. cbn [assignG]. unfold slowG. rewrite int_src_ok_other by exact I. unfold np_array.
-  destruct (np_flat_atoms l) as [sh E].
+  intros q fixed cap t l Hi Hl. cbn [assignG]. unfold slowG. rewrite int_src_ok_other by exact I.
+  assert (Hat : forallb np_atom l = true).
   { rewrite forallb_forall in *. intros x Hx. specialize (Hi x Hx). destruct x; try discriminate. reflexivity. }
-  rewrite E. cbn [bind snd dtype_of]. rewrite mapM_id by reflexivity. cbn [bind]. rewrite Hl.
+  rewrite (np_array_pylist _ l Hat). cbn [bind snd dtype_of]. rewrite mapM_id by reflexivity. cbn [bind]. rewrite Hl.
   rewrite float_src_ok_other by exact I. unfold chkG.
   assert (forallb (elem_in_dsdl_range (EComp t)) l = true) as -> by (apply forallb_forall; reflexivity).
   rewrite orb_true_r. reflexivity.
